@@ -543,6 +543,7 @@ func ruleC03(prog *Program, rep *Report) {
 	}
 	applyParseResults(rep, scross, kindsCross, "A-sencross", 12)
 	rulePreambleAgree(prog, rep)
+	ruleBigLimitAgree(prog, rep) // the kind of value a number comes back as must not depend on the chunking
 	ruleSENFollow(prog, rep)
 	ruleReaderLoops(prog, rep)
 	ruleEntryParity(prog, rep, "oj.Parser", "oj.Validator", "oj.Tokenizer", "gen.Parser", "sen.Parser", "sen.Tokenizer") // the []byte and the reader entry must start from the same state
